@@ -26,7 +26,7 @@ pub fn property() -> Property {
             "tokio paused clock with auto-advance; is_closed sampled every 100 ms of virtual time",
             "Lab-S `glue` family (real time, whole seconds 1-3): the real Client against the reference server, peer answering or silent from the start",
         ],
-        families: vec![(Box::new(BeatFam), 8_000, 64_000), (Box::new(GlueFam), 4, 40)],
+        families: vec![(Box::new(BeatFam), 8_000, 64_000), (Box::new(GlueFam), 6, 60)],
     }
 }
 
@@ -413,6 +413,9 @@ pub struct GlueCase {
     pub interval_s: u64,
     pub timeout_s: u64,
     pub peer_answers: bool,
+    /// Some(n): the peer answers the first n keep-alive requests and then falls silent
+    #[serde(default)]
+    pub answers_then_silent: Option<u8>,
 }
 
 pub struct GlueFam;
@@ -423,14 +426,19 @@ impl Family for GlueFam {
         "glue"
     }
     fn strategy(&self, _tier: Tier) -> BoxedStrategy<GlueCase> {
-        (1u64..=2, 1u64..=3, any::<bool>()).prop_map(|(interval_s, timeout_s, peer_answers)| GlueCase { interval_s, timeout_s, peer_answers }).boxed()
+        (1u64..=3, 1u64..=3, any::<bool>(), proptest::option::weighted(0.5, 1u8..3))
+            .prop_map(|(interval_s, timeout_s, peer_answers, a)| GlueCase { interval_s, timeout_s, peer_answers: peer_answers || a.is_some(), answers_then_silent: a })
+            .boxed()
     }
     fn fixed_cases(&self, _tier: Tier) -> Vec<GlueCase> {
         vec![
-            GlueCase { interval_s: 1, timeout_s: 3, peer_answers: false },
-            GlueCase { interval_s: 2, timeout_s: 1, peer_answers: false },
-            GlueCase { interval_s: 2, timeout_s: 1, peer_answers: true },
-            GlueCase { interval_s: 1, timeout_s: 2, peer_answers: true },
+            GlueCase { interval_s: 1, timeout_s: 3, peer_answers: false, answers_then_silent: None },
+            GlueCase { interval_s: 2, timeout_s: 1, peer_answers: false, answers_then_silent: None },
+            GlueCase { interval_s: 2, timeout_s: 1, peer_answers: true, answers_then_silent: None },
+            GlueCase { interval_s: 1, timeout_s: 2, peer_answers: true, answers_then_silent: None },
+            // timeout < interval with a peer that answers once and then falls silent
+            GlueCase { interval_s: 3, timeout_s: 1, peer_answers: true, answers_then_silent: Some(1) },
+            GlueCase { interval_s: 2, timeout_s: 1, peer_answers: true, answers_then_silent: Some(2) },
         ]
     }
     fn case_budget_s(&self) -> u64 {
@@ -441,7 +449,7 @@ impl Family for GlueFam {
         let c = case.clone();
         let r: Result<(), Fail> = run_real(async move {
             let case = c;
-            let beh = Behaviour { synack: true, echo: true, heartbeat: case.peer_answers, server_settings: true, scheme: None, schemes: vec![] };
+            let beh = Behaviour { synack: true, echo: true, heartbeat: case.peer_answers, server_settings: true, scheme: None, schemes: vec![], heartbeat_limit: case.answers_then_silent.map(|n| n as usize) };
             let srv = RefServer::start(PASSWORD, beh).await?;
             let pool = anytls_rs::client::SessionPoolConfig {
                 check_interval: Duration::from_secs(case.interval_s),
@@ -461,7 +469,24 @@ impl Family for GlueFam {
             let i_ms = case.interval_s * 1000;
             let t_ms = case.timeout_s * 1000;
             let desc = format!("client built with check interval {} s / idle timeout {} s (the -I / -T options)", case.interval_s, case.timeout_s);
-            if case.peer_answers {
+            if let Some(k) = case.answers_then_silent {
+                // the peer answers requests 1..k (sent at 0, I, .., (k-1) I) and ignores request k+1 (sent at
+                // k I): last answer L ~ (k-1) I, so the session must be closed by L + T + I = k I + T, and
+                // not before request k+1 has been outstanding for T
+                let k = k as u64;
+                let bound = k * i_ms + t_ms;
+                let closed = wait_until(bound + 1200, || session.is_closed()).await;
+                let at = t0.elapsed().as_millis() as u64;
+                if !closed {
+                    return Err(Fail::plain(
+                        "C14.detect",
+                        format!("the peer answered {k} keep-alive request(s) and then fell silent; the session is still open after {at} ms, bound last answer + timeout + interval = {bound} ms ({desc})"),
+                    ));
+                }
+                if at + 400 < k * i_ms {
+                    return Err(Fail::plain("C14.safe", format!("closed after {at} ms although the peer was still answering in time ({desc})")));
+                }
+            } else if case.peer_answers {
                 // healthy peer: open over 3 intervals + timeout, and one request per interval was seen
                 let horizon = 3 * i_ms + t_ms + 500;
                 tokio::time::sleep(Duration::from_millis(horizon)).await;
@@ -490,6 +515,7 @@ impl Family for GlueFam {
         out.nt(true);
         out.class_if(case.timeout_s < case.interval_s, "timeout<interval");
         out.class_if(case.peer_answers, "peer-answers");
+        out.class_if(case.answers_then_silent.is_some(), "answers-then-silent");
         out.class_if(!case.peer_answers, "silent-peer");
         Ok(out)
     }
